@@ -51,8 +51,8 @@ func init() {
 	}.register()
 
 	register(&PropDef{
-		ID:   "C20",
-		Rule: "histories over the declared function bank (distinct code pointers, so CallbackInfo.Name is meaningful) with callbacks on a random subset of constructors and decorators, fault plans, RecoverFromPanics on/off and a mock clock that every function body advances by its own amount; oracle: callback events correspond one-to-one and in order to executions, Error is nil / has the function's own error as root cause / is a PanicError with the panic value, Name is package.function of the bank literal, Runtime equals the function's own clock advance exactly; non-trivial = >=2 callbacks fire in one Invoke, or a callback-bearing function is demanded again after it was cached or is retried after a failure; distinct by FNV-64 of the canonical IR",
+		ID:          "C20",
+		Rule:        "histories over the declared function bank (distinct code pointers, so CallbackInfo.Name is meaningful) with callbacks on a random subset of constructors and decorators, fault plans, RecoverFromPanics on/off and a mock clock that every function body advances by its own amount; oracle: callback events correspond one-to-one and in order to executions, Error is nil / has the function's own error as root cause / is a PanicError with the panic value, Name is package.function of the bank literal, Runtime equals the function's own clock advance exactly; non-trivial = >=2 callbacks fire in one Invoke, or a callback-bearing function is demanded again after it was cached or is retried after a failure; distinct by FNV-64 of the canonical IR",
 		Assumptions: []string{"hook VerifMockClock (build tag verif) installs dig's own digclock.Mock", "Error passed to the callback when a panic is NOT recovered is not asserted (the property speaks of recovered panics)"},
 		Gen: func(t *rapid.T, thorough bool) *Case {
 			bk := DefaultBankKnobs()
